@@ -73,6 +73,25 @@ func (m *Machine) harnessAPI(fn *ssa.Function, a []Value) (Value, bool) {
 	case "vfTag":
 		m.pathTags = append(m.pathTags, m.constName(a[0]))
 		return nil, true
+	case "vfCharString", "vfASCIIString":
+		// a string of exactly n symbolic code points (n concrete on this path)
+		name := m.constName(a[0])
+		n := int(m.concretizeInt(a[1], 0, 64, "vfCharString length"))
+		parts := make([]*Term, n)
+		for i := 0; i < n; i++ {
+			c := m.nondetVar(fmt.Sprintf("%s[%d]", name, i), SInt)
+			hi := int64(maxSMTChar)
+			if fn.Name() == "vfASCIIString" {
+				hi = 127
+			}
+			c.Hi = hi
+			m.assume(And(Ge(c, IntT(0)), Le(c, IntT(hi))))
+			if hi > 0xD7FF {
+				m.assume(Or(Lt(c, IntT(0xD800)), Gt(c, IntT(0xDFFF))))
+			}
+			parts[i] = FromCode(c)
+		}
+		return fromTerm(Concat(parts...)), true
 	case "vfRegister":
 		return nil, true
 	case "vfAny":
